@@ -39,6 +39,12 @@ def check(ctx):
     build = C.ensure_built("C15", ["prims"])
     ops = C.hcorr("enc", "gen", ["-seed", str(ctx.seed), "-tier", ctx.tier])
     real, bad_spec, bad_model = run_ops(ctx, build, ops)
+    # a process that DECODES before it has encoded anything (a program reading a header written by an earlier run): the decoding
+    # operations of the stream alone, in a fresh process
+    gets = [o for o in ops if o.split()[0] in ("get64", "get32")][:400]
+    if gets:
+        _, bad_first, _ = run_ops(ctx, build, gets)
+        bad_spec = [(o + "   (first codec call of a fresh process: no Put before it)", w, g) for o, w, g in bad_first[:1]] + bad_spec
     found = False
     seen_kinds = set()
     for op, want, got in bad_spec:
@@ -48,7 +54,7 @@ def check(ctx):
         seen_kinds.add(kind)
         found = True
         ctx.violation("counterexample", "machine codec vs little-endian specification (Spec.check)",
-                      {"proto": "enc", "ops": [op]}, expected=want, observed=got)
+                      {"proto": "enc", "ops": [op.split("   (")[0]], "note": op.split("   (")[1][:-1] if "   (" in op else None}, expected=want, observed=got)
     if bad_model and not found:
         # code and specification agree but the model does not: the model no longer describes the
         # code — the correspondence is broken although no input violates the property
